@@ -52,5 +52,7 @@ DEPENDS = {
     "C19": {"C01": (["R4", "R6", "R8"], "a packet whose header cannot be parsed is neither acked nor delivered"),
             "C07": (["R2"], "delivery to each subscriber needs Event.notify's isolation")},
     "C20": {"C08": (["R1", "R2", "R3", "R8", "R9", "R10", "R11", "R12", "R13", "R14", "R15", "R16"], "mesh and animation codecs are built from the combinators"),
-            "C12": (["R2", "R3", "R5", "R6", "R7"], "inventory LLSD flavours go through the LLSD codecs")},
+            "C12": (["R2", "R3", "R5", "R6", "R7"], "inventory LLSD flavours go through the LLSD codecs"),
+            "C01": (["R16"], "animation key-frame rotations are written through PackedQuat -> Quaternion.data(3): W is dropped, so "
+                             "the sign of X, Y, Z must be normalised or a key frame with W < 0 parses back as another rotation")},
 }
